@@ -13,8 +13,8 @@ CLAIMED = {
         "bound the result denotes exactly the mathematical set; decided per path by SMT, counterexamples replayed natively. "
         "Listed known findings (sequence->GenericSet fall-back, sparse Bytes) are excluded by input class and still reported.",
         "L<=3, offset in [-2,2], probe index in [-4,6], <=1 prior operation; frozen replaced by a list model; the 8x8 set-operator "
-        "dispatch matrix, relations in every pair of column layouts (literal vs joined) and the Array kernel (0..3 items, offsets, "
-        "holes) are separate harnesses (DESIGN.md §4 C01)"),
+        "dispatch matrix, relations in every pair of column layouts (literal vs joined), the Array kernel (0..3 items, offsets, "
+        "holes), the Dict kernel (1..3 entries, several values per key) and the subset comparisons through the real compiler (10 operators x 7x7 operand forms) are separate harnesses (DESIGN.md §4 C01)"),
     "C02": (
         "Bounded symbolic execution of every Equal and Hash implementation: symmetry/reflexivity of Equal and Equal => equal Hash "
         "(for a symbolic seed, hash primitives uninterpreted) on all pairs of an 18-kind universe, and 12 pairs of construction "
@@ -48,7 +48,7 @@ CLAIMED = {
         "replayed natively. Known findings (++ index collision, sparse Bytes) are excluded by input class and still reported.",
         "sequences of length 1..3 with one possible hole, offsets in [-2,2], arguments integer/fractional/non-number; dicts and "
         "{|@,x|} relations of 1..2 entries with duplicate keys; element transformer an uninterpreted function; safe tails (c(k)?:f, t.n?:f, chained "
-        "and nested) through the real compiler with symbolic keys and offsets; :> and >>> are outside the registered bound"),
+        "and nested) through the real compiler with symbolic keys and offsets; >>> with an uninterpreted function of (index, element) on sequences, >> and >>> on dictionaries (a key may carry several values) and {|@,x|} relations; ++ with a left string carrying one or two interior holes; :> is outside the registered bound"),
     "C06": (
         "Bounded symbolic execution of every Less/Equal/Kind implementation over an 18-kind value universe built through the real "
         "constructors: trichotomy on all kind pairs, transitivity on triples inside the number/tuple/sequence families, and Rank/"
@@ -161,7 +161,7 @@ CLAIMED = {
         "Bounded exploration by the symbolic executor of the real RunExpr/ForeachLeaf/isLiteralTrue/isLiteralFalse/calcStats over "
         "every result tree of depth <=2 and width <=2 built through the real constructors (tuples, offset arrays, dicts; leaves "
         "true/false/number/plain set), against a census known by construction: one result per leaf, distinct paths, counts add "
-        "up, run fails iff some leaf is not true, no panic (sparse arrays included).",
+        "up, run fails iff some leaf is not true, no panic (sparse arrays included); two leaves sharing one path (a dictionary key with two values, an attribute named like a nested path) are two results.",
         "depth <=2, width <=2; array offsets in [-2,2]; the directory walk (getTestFiles), Compile and the report formatting are "
         "outside the claim"),
 }
